@@ -125,6 +125,24 @@ def run(tier):
             recs.append({"id": len(recs) + 1, "key": "%s|%s|in-process-repeat" % (c["name"], c["shell"]), "val": "same" if o.get("same") else "differs"})
             log.append((c, "4 compilations in one process"))
             nrep += 1
+    # many compilations of small grammars whose result can depend on a randomly keyed table inside the compiler: several
+    # within-word expressions of equal shape, the same items in a different arrangement (two automata that differ only in which
+    # input sits at which index).  A rare collision (1 in 128 compilations before fix daa324b) needs hundreds of repetitions.
+    from props import c04
+    fam = []
+    for variants in c04.shapes(rnd):
+        for sh in gen.SHELLS:
+            fam.append(dict(gen.case(variants, [], shell=sh), name="family:%d" % (len(fam) // 4)))
+    nmany = 400 if tier == "quick" else 3000
+    rep2 = core.record("repeat", [{"usage": c["usage"], "shell": c["shell"]} for c in fam], extra=[str(nmany)])
+    for c, r in zip(fam, rep2):
+        o = r["obs"]
+        if o.get("ok"):
+            recs.append({"id": len(recs) + 1, "key": "%s|%s|in-process-repeat" % (c["name"], c["shell"]), "val": "same"})
+            log.append((c, "first of %d compilations in one process" % nmany))
+            recs.append({"id": len(recs) + 1, "key": "%s|%s|in-process-repeat" % (c["name"], c["shell"]), "val": "same" if o.get("same") else "differs"})
+            log.append((c, "%d compilations in one process" % nmany))
+            nrep += 1
     res, mism, nval = memo.run(recs, shards=8)
     v = core.Verdict("C10")
     for d in mism:
